@@ -83,6 +83,12 @@ def cacheacc_cases(ctx):
                 c.accumulate(('o', oid))
             c.accumulate(c)
             reads.append(([v[1] for v in c.value], c.n))
+            # a SECOND merge into the (by now usually full) receiver, after observations that interleave in time with another cache
+            e = A.CacheAccumulator(L)
+            for (who, tt, oid) in post:
+                (a if who == 'a' else e).accumulate(('o', oid))
+            a.accumulate(e)
+            reads.append(([v[1] for v in a.value], a.n))
             return reads
         sc = []
         for _ in range(rng.choice([0, 1, 2, 5])):
@@ -92,12 +98,16 @@ def cacheacc_cases(ctx):
         for _ in range(rng.choice([0, 1, 2, 4])):
             t += rng.choice([1, 2])
             sd.append((t, next(ids)))
-        readings = [x[0] for x in sorted(sa + sb, key=lambda p: p[1])] + [x[0] for x in sc] + [x[0] for x in sd] + [x[0] for x in sa]
+        post = []
+        for _ in range(rng.choice([0, 2, 4, 7])):
+            t += rng.choice([1, 2])
+            post.append((rng.choice('ae'), t, next(ids)))
+        readings = [x[0] for x in sorted(sa + sb, key=lambda p: p[1])] + [x[0] for x in sc] + [x[0] for x in sd] + [x[0] for x in sa] + [x[1] for x in post]
         reads, clk = with_clock(readings, run)
         case = dict(kind='CacheAccumulator', L=L, a=sa, b=sb)
         ctx.case(('acc', L, sa, sb), na > 0 and nb > 0, sample=case if na + nb <= 8 else None)
         ctx.count('cacheacc')
-        (va, ca), (vb, cb), (vm, cm), (vb2, cb2), (vc, cc), (vc2, cc2), (vd, cd), (vs, cs) = reads
+        (va, ca), (vb, cb), (vm, cm), (vb2, cb2), (vc, cc), (vc2, cc2), (vd, cd), (vs, cs), (v2, c2) = reads
         wants = [x[1] for x in sa for _ in (0, 1)][-L:] if na else []
         # equal time stamps: all of the receiver's items with that stamp first, then the other's (stable merge) — for a self-merge
         # with distinct stamps that is x0 x0 x1 x1 …; with ties inside the stream the order among equal stamps is the stream's
@@ -127,6 +137,14 @@ def cacheacc_cases(ctx):
         wantd = ([x[1] for x in sb] + [x[1] for x in sd])[-L:] if (sb or sd) else []
         if vd != wantd or cd != nb + len(sd):
             ctx.fail('cacheacc-donor-wrong-after-merge', 'the merged-in cache holds %s (n=%s) after %d further observations, expected %s' % (vd, cd, len(sd), wantd), case)
+        # second merge: the receiver's retained items carry the time stamps they arrived with
+        stamped = ([(m[0], m[3]) for m in full] + [(p[0], p[1]) for p in sc] + [(tt, oid) for who, tt, oid in post if who == 'a'])[-L:]
+        other = [(tt, oid) for who, tt, oid in post if who == 'e'][-L:]
+        want2 = [x[3] for x in sorted([(tt, 0, i, oid) for i, (tt, oid) in enumerate(stamped)] + [(tt, 1, i, oid) for i, (tt, oid) in enumerate(other)])][-L:]
+        n2 = na + nb + len(sc) + len(post)
+        if v2 != want2 or c2 != n2:
+            ctx.fail('cacheacc-second-merge-wrong', 'after merge, %d further observations and a second merge the cache holds %s (n=%s), one cache '
+                     'that saw everything in time order holds %s (n=%d)' % (len(sc), v2, c2, want2, n2), case)
         lines.append('cache.acc %d | %s' % (L, ' '.join('%d:%d' % p for p in sa)))
         lines.append('cache.accmerge %d | %s | %s | %s' % (L, ' '.join('%d:%d' % p for p in sa), ' '.join('%d:%d' % p for p in sb),
                                                        ' '.join('%d:%d' % p for p in sc)))
@@ -151,10 +169,11 @@ def cachemax_cases(ctx):
         t = 10
         sa, sb = [], []
         ids = iter(range(10 ** 6))
+        kbase = rng.choice([0, 0, 0, 2 ** 53, 1700000000123456000])     # keys may be integers no float can tell apart
         for s, n in ((sa, na), (sb, nb)):
             for _ in range(n):
                 t += rng.choice([1, 1, 2, 7])            # strictly increasing: (key, time) pairs are distinct
-                s.append((rng.randint(-3, 6), t, next(ids)))
+                s.append((kbase + rng.randint(-3, 6), t, next(ids)))
         mk = lambda: A.CacheMaximum(length=L, key=lambda o: o[0], time_key=lambda o: o[1], timeout=tmo)  # noqa
         a, b = mk(), mk()
         case = dict(kind='CacheMaximum', L=L, timeout=tmo, a=sa, b=sb)
@@ -208,7 +227,7 @@ def cachemax_cases(ctx):
             sc = []
             for _ in range(rng.choice([0, 1, 3, 6])):
                 t += rng.choice([1, 2])
-                sc.append((rng.randint(-3, 8), t, next(ids)))
+                sc.append((kbase + rng.randint(-3, 8), t, next(ids)))
             for o in sc:
                 a.accumulate(o)
             keys = [v[0] for v in a.value]
